@@ -1047,6 +1047,8 @@ var kvFieldPool = []string{"x", "xy", "n.a", "n", "d:", "i:x", "t:1", "v:", "c:a
 // auxKeys records, for one collection name, field name, id and value, every key the real code sets,
 // deletes, reads and seeks while the collection, a document and an index are created, used and
 // dropped; CloverKV says which keys those must be.
+var kvPairName string
+
 func auxKeys(r *rand.Rand, n int, emit func(E), stats map[string]int) {
 	u := NewUniverse("general", "general")
 	dir, _ := os.MkdirTemp(scratchBase(), "verif-kv-")
@@ -1064,6 +1066,13 @@ func auxKeys(r *rand.Rand, n int, emit func(E), stats map[string]int) {
 			name = string(b)
 		}
 		field := kvFieldPool[r.Intn(len(kvFieldPool))]
+		// every few rounds a pair (N, "n.a") then (N + ".n", "a"): the same text once the two are glued with a dot
+		if i%7 == 3 {
+			field = "n.a"
+			kvPairName = name
+		} else if i%7 == 4 {
+			name, field = kvPairName+".n", "a"
+		}
 		id := ids[r.Intn(len(ids))]
 		val := vals[r.Intn(len(vals))]
 		if field == "_id" {
